@@ -443,6 +443,11 @@ def plan(tier, seed):
     for i in range(nm):
         specs.append({'kind': 'multi', 'count': 700 if tier == 'quick' else 2500})
     specs.append({'kind': 'wide', 'values': tier == 'thorough'})
+    # every pair of a rectangle on one sheet and a rectangle on another one
+    n2 = 3 if tier == 'quick' else 4
+    for i in range(2 if tier == 'quick' else 8):
+        specs.append({'kind': 'pairs2s', 'n': n2, 'part': i,
+                      'parts': 2 if tier == 'quick' else 8})
     nf = 6 if tier == 'quick' else 24
     for i in range(nf):
         specs.append({'kind': 'formula', 'n': n, 'part': i, 'parts': nf,
@@ -493,6 +498,18 @@ def run(spec, ctx):
                 check_pair(case, ctx, s)
         ctx.sample({'pair': [rr.spell(tuple(rects[i])), rr.spell(tuple(rects[j]))]})
         ctx.see('pairs_total', len(pairs))
+    elif k == 'pairs2s':
+        ra, rb = _grid_rects(spec['n']), _grid_rects(spec['n'], 'S2')
+        pairs = list(itertools.product(range(len(ra)), range(len(rb))))
+        for idx in range(spec['part'], len(pairs), spec['parts']):
+            i, j = pairs[idx]
+            for a, b in (([ra[i]], [rb[j]]), ([rb[j]], [ra[i]]),
+                         ([ra[i], rb[j]], [ra[j]])):
+                case = {'kind': 'pair', 'a': a, 'b': b, 'content': 'unique'}
+                ctx.open_case(case)
+                ctx.count('monitor.two-sheet-pairs')
+                check_pair(case, ctx, s)
+        ctx.sample(case)
     elif k == 'multi':
         for _ in range(spec['count']):
             n = rng.choice((3, 4, 5, 6))
@@ -583,7 +600,8 @@ def finalize(agg, tier):
                      ('contract.add', 5000), ('contract.sub', 5000),
                      ('contract.simplify', 5000), ('contract.value', 5000),
                      ('monitor.formula', 500), ('monitor.add-values', 2000),
-                     ('monitor.tree', 1000), ('monitor.pair', 300)):
+                     ('monitor.tree', 1000), ('monitor.pair', 300),
+                     ('monitor.two-sheet-pairs', 3000)):
         if c.get(k, 0) < floor:
             inc.append('monitor %s saw %d events (< %d)' % (k, c.get(k, 0), floor))
     rel = set(agg['sets'].get('relation', ()))
@@ -593,5 +611,7 @@ def finalize(agg, tier):
         inc.append('relative-position classes never seen: %s' % sorted(need - rel))
     return {'inconclusive': inc, 'coverage': {
         'exhaustive': True,
-        'exhaustive_note': 'all ordered rectangle pairs of the NxN grid',
+        'exhaustive_note': 'all ordered rectangle pairs of the NxN grid; all pairs '
+                           'of a rectangle on one sheet and one on another sheet of '
+                           'the smaller grid',
         'relation_classes': sorted(rel)}}
